@@ -7,13 +7,22 @@ namespace Zl
 /-- injective key of a byte list: big-endian number of `1 :: bytes` -/
 def keyOfBytes (bs : List Nat) : Nat := bs.foldl (fun acc b => acc * 256 + b) 1
 
-def keyOf (s : String) : Nat := keyOfBytes (s.toUTF8.toList.map (·.toNat))
+/-- UTF-8 bytes of a code point (kernel-reducible: plain arithmetic, no ByteArray) -/
+def utf8Bytes (c : Nat) : List Nat :=
+  if c < 0x80 then [c]
+  else if c < 0x800 then [0xC0 + c / 64, 0x80 + c % 64]
+  else if c < 0x10000 then [0xE0 + c / 4096, 0x80 + (c / 64) % 64, 0x80 + c % 64]
+  else [0xF0 + c / 262144, 0x80 + (c / 4096) % 64, 0x80 + (c / 64) % 64, 0x80 + c % 64]
+
+def utf8OfString (s : String) : List Nat := s.toList.flatMap (fun ch => utf8Bytes ch.toNat)
+
+def keyOf (s : String) : Nat := keyOfBytes (utf8OfString s)
 
 /-- order-preserving key: bytes right-padded with NUL to `width`, big-endian -/
 def padKeyOfBytes (width : Nat) (bs : List Nat) : Nat :=
   (bs ++ List.replicate (width - bs.length) 0).foldl (fun acc b => acc * 256 + b) 0
 
-def padKeyOf (width : Nat) (s : String) : Nat := padKeyOfBytes width (s.toUTF8.toList.map (·.toNat))
+def padKeyOf (width : Nat) (s : String) : Nat := padKeyOfBytes width (utf8OfString s)
 
 /-- the bytes of an injective key (inverse of `keyOfBytes`), most significant first -/
 def bytesOfKey (k : Nat) : List Nat :=
